@@ -514,7 +514,8 @@ class C13(Prop):
             "sets (incl. an edge rejected on one path while its target is reached on another); oracle recomputes reachability "
             "over accepted edges from the source snapshot: the slice's present vertices are exactly the reachable ones under "
             "their ids, its edges are exactly the source edges between kept vertices in the same order, the source snapshot is "
-            "unchanged, the call returns (time-out = non-termination).  Non-trivial = the reachable part contains a cycle or a "
+            "unchanged, the call returns (time-out = non-termination); half of the plain slices are sliced once more from the "
+            "same vertex and judged the same way.  Non-trivial = the reachable part contains a cycle or a "
             "rejected edge matters; distinct = distinct slice state")
 
     def generate(self, rng, tier):
@@ -533,6 +534,8 @@ class C13(Prop):
                 v = r.pick(ids)
                 if j == 0 or not edges:
                     ops.append("SLICE g %d s%d" % (v, j))
+                    if r.chance(1, 2) and not os.environ.get("VERIF_NO_W12"):
+                        ops.append("SLICE s%d %d t%d" % (j, v, j))        # a slice of the slice (C13_slice_of_slice)
                 else:
                     rej = set()
                     for _ in range(1 + r.below(3)):
@@ -576,7 +579,7 @@ class C13(Prop):
             if res != "ok":
                 return {"reason": "slice returned %s on a graph whose reachable part is present and has at most 14 vertices" % res,
                         "index": i, "expected": "ok", "observed": res}
-            src, ng = before.get("g"), after.get(t[3])
+            src, ng = before.get(t[1]), after.get(t[3])
             if src is None or ng is None:
                 continue
             rej = set()
